@@ -175,6 +175,17 @@ def grid_cases(ck):
                                 head + [{"roles": {role: {"features": {f: b}}}}]))
             out.append((cls, "roles", f"roles.{role}.features", f"roles/{role}: all features True",
                         head + [{"roles": {role: {"features": {f: True for f in feats}}}}]))
+    # every URI slot (positional or option) with strings just outside the URI grammar
+    BAD_URIS = ["com.myapp.topic1\n", "com.myapp.topic1 ", " com.a", "com.a\t.b", "com.a#b", "com..a", ".com.a", "com.a.", "", "\n"]
+    for cls in W.CLASSES:
+        sp = W.SPEC[cls]
+        vn, w = W.exemplars(cls)[0]
+        dpos = next((i + 1 for i, (a, _) in enumerate(sp["pos"]) if a == "DICT"), None)
+        slots = [((i + 1,), a) for i, (a, kd) in enumerate(sp["pos"]) if kd in ("uri", "uri_pattern") and i + 1 < len(w)]
+        slots += [((dpos, key), key) for key, _, kd in sp["opts"] if kd == "uri" and dpos and type(w[dpos]) is dict and key in w[dpos]]
+        for path, name in slots:
+            for u in BAD_URIS:
+                out.append((cls, vn, name, f"{'/'.join(map(str, path))} := {u!r}", W.replace_at(w, path, u)))
     # several roles in every announced order, each role plain `{}` / `{"features": {}}` / with its own feature set:
     # whatever parse() keeps per role must come from that role's entry alone
     import itertools
